@@ -57,7 +57,10 @@ def roundtrip(nrec, enc, blocked, cfgs=None, shapes=None, maxvar1=-1, maxrec=Fal
                 w.close()
         got = []
         with guard('IpmReader', 'C06/read-exception', rp):
-            for d in m.IpmReader(f, encoding=enc, blocked=blocked, iso_config=cfgs):
+            rd = m.IpmReader(f, encoding=enc, blocked=blocked, iso_config=cfgs)
+            if nrec >= 2:
+                got.append(next(rd))                # file header taken with next(), the rest in a for loop
+            for d in rd:
                 core.FUEL.set(30)
                 got.append(d)
                 if len(got) > nrec:
@@ -199,6 +202,8 @@ def obligations(tier):
                               'two messages, any two shapes, variable lengths up to 400', _funcs))
     obs.append(Ob('rt1/custom-config/cp500/1014', roundtrip(1, 'cp500', True, cfgs=GENERIC['g-var']), 300, 'caller-supplied configuration g-var', _funcs))
     obs.append(Ob('rt2/custom-config-decimal/cp500/1014', roundtrip(2, 'cp500', True, cfgs=GENERIC_DEC), 300, 'caller-supplied configuration with decimal fields (values from a concrete family incl. zero)', _funcs))
+    obs.append(Ob('rt1/pds-entry-and-raw-carrier/latin_1/1014', roundtrip(1, 'latin_1', True, shapes=[[2, 'PDS0023', 123], [3, 'PDS0158', 62]]), 300,
+                  'a message that supplies a PDSxxxx entry (packed into DE48) and a later carrier element as a ready-made string', _funcs))
     for blocked in (True, False):
         obs.append(Ob('rt1/closed-twice/cp500/%s' % ('1014' if blocked else 'vbs'), roundtrip(1, 'cp500', blocked, closes=2), 300,
                       'one message, the writer closed twice (as an explicit close() inside a with block does)', _funcs))
